@@ -7,6 +7,9 @@ import io
 import os
 
 
+DENY = object()        # `new_content=DENY`: the file is still there but can no longer be opened (EACCES: mode 000 / another owner)
+
+
 @contextlib.contextmanager
 def live_edit(path, new_content):
     target = os.path.realpath(str(path))
@@ -20,6 +23,10 @@ def live_edit(path, new_content):
             except (TypeError, ValueError):
                 same = False
             if same:
+                if new_content is DENY:              # (every attempt, for as long as the context lasts)
+                    import errno
+                    state['fired'] = True
+                    raise PermissionError(errno.EACCES, os.strerror(errno.EACCES), os.fspath(file))
                 state['done'] = True
                 if new_content is None:
                     os.unlink(target)            # the file vanishes (another process removed it): the open below fails as it would
